@@ -270,10 +270,11 @@ class ScopeMonitor:
         def enter_scope(self, name, node=None):
             mon.events += 1
             cur = self.current_scope
-            if cur is not None:
-                if any(c.name == name.lower() for c in cur.children):
-                    mon.dups.append((cur.name, name.lower()))
             r = o["enter_scope"](self, name, node=node)
+            if cur is not None:
+                # judged on the state after the call: re-entering an existing child is not a duplicate
+                if sum(1 for c in cur.children if c.name == name.lower()) > 1:
+                    mon.dups.append((cur.name, name.lower()))
             mon.shadow.append(name.lower())
             return r
 
